@@ -158,6 +158,20 @@ Theorem C02_rigs_members_order_free : forall O sids t (rs : table O),
 Proof. intro O. exact (read_rigs_members O). Qed.
 Print Assumptions C02_rigs_members_order_free.
 
+(* records files are maps keyed by (timestamp, device[, signal id]): the device cell (column 2) is part of the key
+   of every records kind, so rows of two devices at one timestamp never replace each other - each row of a file
+   with pairwise different keys is found in the loaded map under its own key *)
+Theorem C02_records_keyed_by_timestamp_and_device : forall O, fops_ok O -> forall k (rows : table O) (r : row O),
+  let n := fk_key (fk_rec k) in
+  (2 <= n /\ fk_dev (fk_rec k) = 1) /\
+  (keys_nodup O n rows = true -> In r rows -> find_key O n (firstn n r) (of_rows O false n rows) = Some r).
+Proof.
+  intros O OK k rows r n. split.
+  - destruct k; cbn; auto.
+  - exact (of_rows_keeps_all O OK n rows r).
+Qed.
+Print Assumptions C02_records_keyed_by_timestamp_and_device.
+
 (* integers: sign and leading zeros *)
 Theorem C02_leading_zeros : forall O k (n : N),
   read_cell O TInt (repeat "0"%char k ++ show_N n) = Some (CInt (Z.of_N n)) /\
